@@ -700,3 +700,79 @@ Definition render_impl {F : FTable} (strict : bool) (T : list (str * str)) (c : 
 (* ... and as it was before the repairs *)
 Definition render_legacy {F : FTable} (strict : bool) (T : list (str * str)) (c : ctx) (s : str) : outcome :=
   translate true (S (length T)) strict T c s.
+
+(* ------------------------------------------------------------------ *)
+(* mRNA objects with HAND-WRITTEN codons                                 *)
+(*                                                                      *)
+(* mRNA(sequence, codons=[Codon(codon_type, name, required=...), ...]):   *)
+(* a non-empty codons list REPLACES the auto-detected one                 *)
+(* (__post_init__: `if not self.codons: self.codons = _detect_codons()`), *)
+(* so get_required_variables() - the list the up-front check of           *)
+(* translate() walks - is whatever the caller declared: it may leave out  *)
+(* variables the sequence uses, name variables the sequence never uses,   *)
+(* repeat names, mark them optional or give them another codon type.      *)
+(* Everything after the up-front check reads the SEQUENCE only.           *)
+Inductive ctype := CtVariable | CtConditional | CtLoop | CtInclude | CtFilter.
+Definition codon := (ctype * str * bool)%type.      (* codon_type, name, required *)
+Definition is_variable (k : ctype) : bool := match k with CtVariable => true | _ => false end.
+(* mRNA.get_required_variables() of a hand-written list *)
+Definition declared_required (cs : list codon) : list str :=
+  map (fun cd => snd (fst cd)) (filter (fun cd => snd cd && is_variable (fst (fst cd))) cs).
+(* ... of the mRNA: an empty list is falsy, the codons are then auto-detected *)
+Definition required_of (cs : list codon) (s : str) : list str :=
+  match cs with [] => required_vars s | _ => declared_required cs end.
+
+(* the up-front check over a given list of required names *)
+Definition missing_of (legacy : bool) (c : ctx) (s : str) (req : list str) : list str :=
+  filter (fun x => negb (bound c x) &&
+                   (legacy || occurs (key_pattern x) (outside_loops s)))
+         req.
+
+(* translate() after the up-front check: the passes, and the warnings THEY report *)
+Definition translate_core {F : FTable} (legacy : bool) (fuel' : nat) (strict : bool) (T : list (str * str))
+                          (c : ctx) (s : str) : outcome :=
+  let s1 := pass_if c s in
+  let s2 := pass_each legacy c s1 in
+  let rs := resolve_includes
+              (fun n => match lookup T n with
+                        | Some sq => Some (translate legacy fuel' strict T c sq)
+                        | None => None
+                        end) s2 in
+  match include_text legacy rs with
+  | inr e => Err e
+  | inl s3 =>
+      match pass_filtered legacy c s3 with
+      | inr e => Err e
+      | inl s4 =>
+          let s5 := pass_default legacy c s4 in
+          let s6 := pass_optional legacy c s5 in
+          match pass_simple legacy (strict && negb legacy) c s6 with
+          | inr e => Err e
+          | inl s7 =>
+              Ok (unsh legacy s7)
+                 (include_warnings legacy rs ++ warn_filtered c s3 ++ warn_simple c s6)
+          end
+      end
+  end.
+(* the "Missing required variable" warnings of the up-front check come first *)
+Definition add_missing (miss : list str) (o : outcome) : outcome :=
+  match o with Ok t w => Ok t (map WMissing miss ++ w) | Err e => Err e end.
+
+(* translate(mRNA(s, codons=...)) where get_required_variables() = req; the registered templates
+   an include pulls in are rendered by [translate] (their codons are auto-detected) *)
+Definition translate_decl {F : FTable} (legacy : bool) (fuel' : nat) (strict : bool) (T : list (str * str))
+                          (c : ctx) (s : str) (req : list str) : outcome :=
+  let miss := missing_of legacy c s req in
+  match (if strict then miss else []) with
+  | x :: _ => Err (EMissing x)
+  | [] => add_missing miss (translate_core legacy fuel' strict T c s)
+  end.
+
+(* Ribosome(templates=T, filters=F, strict=strict).translate(mRNA(s, codons=cs), **c) *)
+Definition render_impl_decl {F : FTable} (strict : bool) (T : list (str * str)) (c : ctx) (s : str)
+                            (cs : list codon) : outcome :=
+  translate_decl false (length T) strict T c s (required_of cs s).
+(* what the passes alone render and report: translate() of an mRNA whose codons declare no required
+   variable (e.g. codons=[Codon(CodonType.LOOP, "")]); it does not take the codons at all *)
+Definition render_passes {F : FTable} (strict : bool) (T : list (str * str)) (c : ctx) (s : str) : outcome :=
+  translate_core false (length T) strict T c s.
